@@ -438,6 +438,8 @@ def rule_j(ctx):
     c08.rule_a(ctx)
 
 
+WITNESS = ['c01', 'c11']  # doctest filters in /verif/witness (thorough tier)
+
 RULES = [
     ("C01.j", "time read + insert under one hold of the queue lock", rule_j),
     ("C01.a", "who may write the time", rule_a),
